@@ -89,4 +89,41 @@ func init() {
 			return js
 		},
 	})
+	reg(&PropSpec{
+		ID: "C15", Level: "other",
+		Explanation: seqLevelText + ". C15: every expression tree over pair.From/FromSeq/TakeWhile/DropWhile/Filter/Map/Plus/Join up to the depth bound (2 quick, 3 thorough), drained through the documented loop (Key and Value read at each position) and, one level shallower, through ForEach (failing at every position) and through ToSeq into a plain seq; FromSeq additionally over plain sequences of 0..3 elements with nil/1/2-pair selectors; keys and values are independent symbols, predicates/mappings/selectors are binary uninterpreted functions; reference is a list of pairs.",
+		Assumptions: append([]string{"a sequence value is consumed by one consumer", "trees deeper than the bound and FromSeq leaves over more than 2 elements are outside the claim"}, commonAssumptions...),
+		Jobs: func(tier string) []JobSpec {
+			depth := 2
+			if tier == "thorough" {
+				depth = 3
+			}
+			var js []JobSpec
+			for k0 := 0; k0 < 9; k0++ {
+				for k1 := -1; k1 < 9; k1++ {
+					if (k0 <= 2) != (k1 == -1) {
+						continue
+					}
+					for _, h := range []string{"VPairDrain", "VPairForEach", "VPairToSeq"} {
+						d := depth
+						if h != "VPairDrain" {
+							// ForEach multiplies every tree by the failing position and ToSeq by
+							// 4^pairs selector outcomes: they run one level shallower
+							d = depth - 1
+							if k1 > 2 {
+								continue
+							}
+						}
+						p := map[string]int{"depth": d, "k0": k0}
+						if k1 >= 0 {
+							p["k1"] = k1
+						}
+						js = append(js, JobSpec{Group: "traitpair", Harness: h, Mode: "seq", Params: p})
+					}
+				}
+			}
+			js = append(js, JobSpec{Group: "traitpair", Harness: "VPairFromSeq", Mode: "seq"})
+			return js
+		},
+	})
 }
